@@ -51,6 +51,61 @@ def run_translator(R):
     return True
 
 
+def run_app_translator(R):
+    out_v = os.path.join(vp.COQ, "gen", "AppWiring.v")
+    rc, out = vp.sh("go run ./appwire -repo %s -out %s" % (vp.REPO, out_v), cwd=TRANSLATOR, env=vp.go_env(), timeout=300)
+    R.coverage["translator_appwire"] = out.strip().splitlines()[-1] if out.strip() else "rc=%d" % rc
+    if rc != 0:
+        R.broke("translator:appwire failed on %s/app/app.go wireCoreWorkflow (a construction shape it can not interpret; obligation C01_app_wiring)" % vp.REPO, out[-3000:])
+        return False
+    return True
+
+
+APP_OVERLAY = {"zz_verif_c01_internal_test.go": os.path.join(vp.VERIF, "harness", "overlay", "app", "zz_verif_c01_internal_test.go")}
+TIMING_KEYS = ("published-late", "never-published")
+
+
+def _appnode_once(env_extra=None):
+    rc, out, od = vp.go_overlay_test("app", APP_OVERLAY, run="TestVerifC01App", env_extra=env_extra, timeout=1200)
+    if rc != 0:
+        return rc, out, []
+    return rc, out, json.load(open(os.path.join(od, "appnode_runs.json")))
+
+
+def run_appnode(R):
+    """Single-node family through the REAL app.wireCoreWorkflow (overlay test in package app)."""
+    rc, out, runs = _appnode_once()
+    if rc != 0:
+        R.broke("correspondence:app-node family (overlay test in package app, real wireCoreWorkflow) failed to run", out[-3000:])
+        return
+    final = []
+    retried = 0
+    for r in runs:
+        if not os.environ.get("VERIF_REPLAY") and any(h["key"] in TIMING_KEYS for h in (r["hits"] or [])):
+            # a publication that is late / missing is judged by waiting: re-run that one scenario alone with tripled waits
+            spec = {k: r[k] for k in ("id", "family", "n", "k", "kind", "seed")}
+            tmp = os.path.join(vp.WORK, "appnode_retry_%d.json" % r["id"])
+            with open(tmp, "w") as f:
+                json.dump({"replay": spec}, f)
+            rc2, out2, again = _appnode_once({"VERIF_REPLAY": tmp, "VERIF_WAIT_SCALE": 3})
+            retried += 1
+            if rc2 == 0 and again:
+                r = again[0]
+        final.append(r)
+    aborted = [r for r in final if r.get("aborted")]
+    R.coverage["app_node_family"] = {
+        "runs": len(final), "retried_with_tripled_waits": retried, "aborted": len(aborted),
+        "shapes": sorted({"%d-of-%d" % (r["k"], r["n"]) for r in final}), "kinds": sorted({r["kind"] for r in final}),
+        "published_at": {"%d-of-%d" % (r["k"], r["n"]): r["published_at"] for r in final if r["kind"] == "exact"},
+        "crossfork_partial_accepted_and_aggregate_refused": sum(1 for r in final if r["kind"] == "crossfork" and r["submissions"] == 0),
+        "note": "one full node built by the real app.wireCoreWorkflow on a beaconmock, only the partial-signature transport replaced (TestConfig.ParSigExFunc); the harness plays all key shares; sync committee messages; monitor on the beacon mock"}
+    for r in final:
+        for h in r["hits"] or []:
+            R.violation("appnode:" + h["key"], "single node built by the real app.wireCoreWorkflow, %d-of-%d cluster, scenario %s: %s" % (r["k"], r["n"], r["kind"], h["what"]),
+                        {"id": r["id"], "family": "appnode", "n": r["n"], "k": r["k"], "kind": r["kind"], "seed": r["seed"], "events": r["events"],
+                         "how": "./check C01 --replay <this file> re-runs this scenario against /repo"})
+
+
 def main():
     R = vp.Result("C01")
     R.assumptions = [
@@ -58,12 +113,14 @@ def main():
         "share i belongs to node i; at most f = floor((n-1)/3) nodes (node + validator client + share) are Byzantine, threshold t = ceil(2n/3); the theorems are stated for any n, t, Byz with n + |Byz| < 2t",
         "an honest node keeps its partial-signature store for the lifetime of the duty: trimming at expiry and restarts that lose the in-memory stores are not modelled (after a restart the one-root-per-share rule rests on consensus agreement and the validator client's slashing protection)",
         "the per-node rules of the model abstract parsigdb (C07) and sigagg (C09); consensus agreement (C02) and duty-store uniqueness (C06) are hypotheses of C01_honest_sign_same only",
-        "the wiring obligation covers core.Wire and the WireOption constructors of package core; subscribers registered elsewhere (app.go: TestConfig.BroadcastCallback on sigAgg) are outside it",
+        "the wiring obligation covers core.Wire and the WireOption constructors of package core (C01_wiring) and the construction code app/app.go wireCoreWorkflow (C01_app_wiring: store and aggregator built with the same threshold expression lock.Threshold, aggregator verifier exactly sigagg.NewVerifier(eth2Cl), peer partials through parsigex.NewEth2Verifier and core.NewDutyGater, the only extra subscriber on the signing path is the integration tests' BroadcastCallback behind its nil check); expressions are compared as printed source; what the constructors DO with these arguments is the component properties' business (C07, C09), and components passed on to other functions (life.RegisterStart, wireVAPIRouter, wirePrioritise) are not followed",
         "simulation, second mode (kinds real / real-staleprep): the consensus stub is replaced by the real core/consensus/qbft component on every honest node (qbft.NewConsensus directly, not through the consensus controller; default feature set, real timers, real time), its libp2p host is an in-memory fake controlled by the harness (delay, duplication, loss, crash, late start, an adversarial stale-PREPARE schedule); Byzantine nodes are silent in consensus; scheduler, fetcher (one different candidate per node), ParSigEx and broadcaster stay stubs; the consensus phase completes before the partial-signature phase starts",
+        "app-node family: one full node built by the real app.wireCoreWorkflow (all real components and wire options, beaconmock as beacon node) with only the partial-signature transport replaced through TestConfig.ParSigExFunc; the harness plays every key share through that transport after the real parsigex.NewEth2Verifier (the duty gater of ParSigEx.handle is not applied); sync committee messages only; 'published once k matching partials arrived' is judged by waiting (4 s, re-run with tripled waits before reporting)",
         "both simulation modes: the broadcaster is the REAL core/bcast Broadcaster over a recording beacon mock (its attester duties are the scenario's); the monitors run on the broadcaster's input, on AggSigDB.Store's input and on the beacon-node submissions",
         "simulation, first mode: scheduler, fetcher, consensus and ParSigEx (network) are harness stubs; the consensus stub decides the first proposal made in the cluster and hands the same decided set to every node; messages make the protobuf round trip and pass parsigex.NewEth2Verifier as in ParSigEx.handle, except in 'garbage' scenarios which bypass it to exercise SigAgg's own verification; WithAsyncRetry is not applied",
     ]
     run_translator(R)
+    run_app_translator(R)
     R.proofs()
     if not os.environ.get("VERIF_REPLAY"):
         c01_bridge.run(R)   # composition: component hypotheses discharged from the C07/C09/C06/C02 models
@@ -71,6 +128,18 @@ def main():
     if not ok:
         R.broke("proof:Flow/Pipeline.v does not build", log[-2000:])
         R.finish()
+    rp = os.environ.get("VERIF_REPLAY")
+    if rp:
+        try:
+            fam = (json.load(open(rp)).get("replay") or {}).get("family")
+        except (OSError, ValueError):
+            fam = None
+        if fam == "appnode":
+            run_appnode(R)
+            R.coverage["evaluations"] = 1
+            R.finish()
+    else:
+        run_appnode(R)
     n = int(os.environ.get("VERIF_N", 4000 if R.thorough else 300))
     nreal = int(os.environ.get("VERIF_REAL", 60 if R.thorough else 12))
     rc, out, od = vp.go_harness("pipeline", env_extra={"VERIF_N": n, "VERIF_REAL": nreal}, timeout=1500)
